@@ -243,8 +243,9 @@ Definition iw_ok (s : iw_st) : bool := negb (iw_uaf s).
               rfbScreenCleanup, which calls rfbClientConnectionGone for every client STILL LISTED (main.c:1242-1248) -
               the competing caller of the teardown
    thread 1 = clientInput of the client
-   thread 2 = clientOutput of the client (no update pending: the worst case for a wake-up; the send path and
-              the onHold sleep loop are NOT modelled)
+   thread 2 = clientOutput of the client, in one of three situations fixed by the initial state: no update pending (it WAITs),
+              one update requested and pending (it sends once: the send itself is one step, a send error = thread 3), or the
+              client on hold (it only sleeps and looks again)
    thread 3 = any other caller of rfbCloseClient (the client's own input thread on a read error,
               another client's non-shared ClientInit, the application)
    rfbCloseClient: LOCK(updateMutex); TSIGNAL(updateCond); UNLOCK; state = RFB_SHUTDOWN; write(pipe).
@@ -255,6 +256,8 @@ Record sh_st := mkSh {
   sh_wait : bool;        (* clientOutput sleeps in WAIT(updateCond) *)
   sh_gone : nat;         (* rfbClientConnectionGone calls *)
   sh_inlist : bool;      (* the record is linked in screen->clientHead *)
+  sh_pend : bool;        (* an update is requested and pending: clientOutput will send instead of waiting *)
+  sh_hold : bool;        (* cl->onHold / state != RFB_NORMAL: clientOutput only sleeps and looks again *)
   sh_pcA : nat; sh_pcI : nat; sh_pcO : nat; sh_pcC : nat
 }.
 Scheme Equality for sh_st.
@@ -270,18 +273,20 @@ Record sh_cfg := mkCfg {
 }.
 
 Definition sh_upd (shut : bool) (um : nat) (w : bool) (g : nat) (s : sh_st) : sh_st :=
-  mkSh shut um w g (sh_inlist s) (sh_pcA s) (sh_pcI s) (sh_pcO s) (sh_pcC s).
+  mkSh shut um w g (sh_inlist s) (sh_pend s) (sh_hold s) (sh_pcA s) (sh_pcI s) (sh_pcO s) (sh_pcC s).
 (* rfbClientConnectionGone: unlink, clientGoneHook, free *)
 Definition sh_teardown (s : sh_st) : sh_st :=
-  mkSh (sh_shut s) (sh_um s) (sh_wait s) (S (sh_gone s)) false (sh_pcA s) (sh_pcI s) (sh_pcO s) (sh_pcC s).
+  mkSh (sh_shut s) (sh_um s) (sh_wait s) (S (sh_gone s)) false (sh_pend s) (sh_hold s) (sh_pcA s) (sh_pcI s) (sh_pcO s) (sh_pcC s).
+Definition sh_take_update (s : sh_st) : sh_st :=
+  mkSh (sh_shut s) 0 (sh_wait s) (sh_gone s) (sh_inlist s) false (sh_hold s) (sh_pcA s) (sh_pcI s) (sh_pcO s) (sh_pcC s).
 Definition sh_pc (t : nat) (s : sh_st) : nat :=
   match t with 0 => sh_pcA s | 1 => sh_pcI s | 2 => sh_pcO s | _ => sh_pcC s end.
 Definition sh_setpc (t v : nat) (s : sh_st) : sh_st :=
   match t with
-  | 0 => mkSh (sh_shut s) (sh_um s) (sh_wait s) (sh_gone s) (sh_inlist s) v (sh_pcI s) (sh_pcO s) (sh_pcC s)
-  | 1 => mkSh (sh_shut s) (sh_um s) (sh_wait s) (sh_gone s) (sh_inlist s) (sh_pcA s) v (sh_pcO s) (sh_pcC s)
-  | 2 => mkSh (sh_shut s) (sh_um s) (sh_wait s) (sh_gone s) (sh_inlist s) (sh_pcA s) (sh_pcI s) v (sh_pcC s)
-  | _ => mkSh (sh_shut s) (sh_um s) (sh_wait s) (sh_gone s) (sh_inlist s) (sh_pcA s) (sh_pcI s) (sh_pcO s) v
+  | 0 => mkSh (sh_shut s) (sh_um s) (sh_wait s) (sh_gone s) (sh_inlist s) (sh_pend s) (sh_hold s) v (sh_pcI s) (sh_pcO s) (sh_pcC s)
+  | 1 => mkSh (sh_shut s) (sh_um s) (sh_wait s) (sh_gone s) (sh_inlist s) (sh_pend s) (sh_hold s) (sh_pcA s) v (sh_pcO s) (sh_pcC s)
+  | 2 => mkSh (sh_shut s) (sh_um s) (sh_wait s) (sh_gone s) (sh_inlist s) (sh_pend s) (sh_hold s) (sh_pcA s) (sh_pcI s) v (sh_pcC s)
+  | _ => mkSh (sh_shut s) (sh_um s) (sh_wait s) (sh_gone s) (sh_inlist s) (sh_pend s) (sh_hold s) (sh_pcA s) (sh_pcI s) (sh_pcO s) v
   end.
 Definition SH_OUT_DONE : nat := 7.
 Definition SH_IN_DONE : nat := 6.
@@ -327,11 +332,18 @@ Definition sh_step_cfg (c : sh_cfg) (t : nat) (s : sh_st) : option sh_st :=
          | _ => None
          end
   | 2 => match sh_pcO s with
-         | 0 => if sh_shut s then Some (sh_setpc 2 SH_OUT_DONE s) else Some (next s)    (* unlocked test of cl->state *)
+         | 0 => if sh_shut s then Some (sh_setpc 2 SH_OUT_DONE s)                       (* unlocked test of cl->state *)
+                else if sh_hold s then Some s                                            (* onHold: THREAD_SLEEP_MS; continue *)
+                else Some (next s)
          | 1 => if sh_um s =? 0 then Some (next (sh_upd (sh_shut s) 3 (sh_wait s) (sh_gone s) s)) else None
          | 2 => if repaired && sh_shut s
                 then Some (sh_setpc 2 SH_OUT_DONE (sh_upd (sh_shut s) 0 (sh_wait s) (sh_gone s) s))   (* re-test under the mutex *)
-                else Some (next (sh_upd (sh_shut s) 0 true (sh_gone s) s))               (* WAIT: release, sleep *)
+                else if sh_pend s
+                     then Some (sh_setpc 2 8 (sh_take_update s))                        (* haveUpdate: UNLOCK, leave the wait loop *)
+                     else Some (next (sh_upd (sh_shut s) 0 true (sh_gone s) s))          (* WAIT: release, sleep *)
+         | 8 => if sh_um s =? 0 then Some (next (sh_upd (sh_shut s) 3 (sh_wait s) (sh_gone s) s)) else None   (* deferUpdateTime; LOCK: copy modifiedRegion *)
+         | 9 => Some (next (sh_upd (sh_shut s) 0 (sh_wait s) (sh_gone s) s))             (* UNLOCK *)
+         | 10 => Some (sh_setpc 2 0 s)                                                   (* IncrClientRef; LOCK(sendMutex); send; UNLOCK; DecrClientRef; loop *)
          | 3 => if sh_wait s then None else Some (next s)                               (* woken *)
          | 4 => if sh_um s =? 0 then Some (next (sh_upd (sh_shut s) 3 (sh_wait s) (sh_gone s) s)) else None
          | 5 => Some (sh_setpc 2 0 (sh_upd (sh_shut s) 0 (sh_wait s) (sh_gone s) s))     (* UNLOCK; loop *)
@@ -340,14 +352,18 @@ Definition sh_step_cfg (c : sh_cfg) (t : nat) (s : sh_st) : option sh_st :=
   | 3 => sh_close_step repaired 3 s
   | _ => None
   end.
-(* the protocol the correspondence run and most theorems use: select() never fails, the application joins *)
-Definition sh_step (repaired : bool) : nat -> sh_st -> option sh_st := sh_step_cfg (mkCfg repaired true false false).
+(* sh_step true = the protocol of /repo HEAD (1b1aba3 + 86ddb5d: EINTR is retried, so the select() failure that remains is a real
+   error, and clientInput then closes the client itself); sh_step false = the protocol before 1b1aba3 *)
+Definition sh_step (repaired : bool) : nat -> sh_st -> option sh_st := sh_step_cfg (mkCfg repaired true repaired repaired).
 (* threads 0..2 only: rfbShutdownServer, clientInput, clientOutput - no helping second closer *)
 Definition sh_step3 (c : sh_cfg) (t : nat) (s : sh_st) : option sh_st := if t <? 3 then sh_step_cfg c t s else None.
 (* threads 1 and 2 only: the client's own two threads, nobody closes the client *)
 Definition sh_step12 (c : sh_cfg) (t : nat) (s : sh_st) : option sh_st :=
   match t with 1 => sh_step_cfg c 1 s | 2 => sh_step_cfg c 2 s | _ => None end.
-Definition sh_init : sh_st := mkSh false 0 false 0 true 0 0 0 0.
+Definition sh_init : sh_st := mkSh false 0 false 0 true false false 0 0 0 0.
+Definition sh_init_pending : sh_st := mkSh false 0 false 0 true true false 0 0 0 0.
+Definition sh_init_onhold : sh_st := mkSh false 0 false 0 true false true 0 0 0 0.
+Definition sh_inits : list sh_st := [sh_init; sh_init_pending; sh_init_onhold].
 Definition sh_final (s : sh_st) : bool :=
   (sh_pcA s =? SH_APP_DONE) && (sh_pcI s =? SH_IN_DONE) && (sh_pcO s =? SH_OUT_DONE) && (sh_pcC s =? 4).
 Definition sh_final3 (s : sh_st) : bool :=
@@ -361,17 +377,74 @@ Definition sh_gone_ok (s : sh_st) : bool :=
 (* ================================================================== 4. thread reclamation (main.c rfbStartOnHoldClient)
    every accepted client gets a JOINABLE thread; it ends by itself when the client disconnects;
    pthread_join is only called by rfbShutdownServer for clients still in the list *)
-Record th_st := mkTh { th_live : nat; th_zombie : nat (* ended, never joined: stack and descriptor kept *) }.
+Record th_st := mkTh { th_live : nat; th_zombie : nat (* ended, never joined nor detached: stack and descriptor kept *) }.
 Inductive th_op := ThConnect | ThDisconnect | ThShutdown.
-Definition th_step (s : th_st) (o : th_op) : th_st :=
+(* a COUNTER, true by construction; what justifies its two ThDisconnect rules is fragment 4f below.
+   fixed = notes/fix_C13_6.diff: a thread that ends by itself detaches itself *)
+Definition th_step (fixed : bool) (s : th_st) (o : th_op) : th_st :=
   match o with
   | ThConnect => mkTh (S (th_live s)) (th_zombie s)
-  | ThDisconnect => match th_live s with S n => mkTh n (S (th_zombie s)) | O => s end
+  | ThDisconnect => match th_live s with S n => mkTh n (if fixed then th_zombie s else S (th_zombie s)) | O => s end
   | ThShutdown => mkTh 0 (th_zombie s)           (* joins exactly the live ones *)
   end.
-Definition th_run (ops : list th_op) : th_st := fold_left th_step ops (mkTh 0 0).
+Definition th_run (fixed : bool) (ops : list th_op) : th_st := fold_left (th_step fixed) ops (mkTh 0 0).
 Fixpoint th_cycles (n : nat) : list th_op :=
   match n with O => [] | S m => ThConnect :: ThDisconnect :: th_cycles m end.
+
+(* ================================================================== 4f. who reclaims a client thread (main.c rfbShutdownServer / clientInput, rfbserver.c)
+   ONE client.  thread 0 = application in rfbShutdownServer: Next(iter) [reference]; clientThread = cl->client_thread
+   [fixed: cl->clientThreadJoinedByShutdown = TRUE]; rfbCloseClient; Next(iter) [reference dropped]; pthread_join(clientThread).
+   thread 1 = the client's thread: ends at ANY moment (peer disconnects) or when notified; rfbClientConnectionGone = wait for
+   refCount == 0 and unlink [one critical section; fixed: the claim flag is read HERE, after the unlink]; free(cl);
+   [fixed: not claimed -> pthread_detach(pthread_self())]; thread exits.
+   HEAD (fixed = false): no flag, no detach.  early = true (only to show the theorem can fail): the flag is read BEFORE the wait. *)
+Record rc_st := mkRc {
+  rc_listed : bool; rc_ref : nat;
+  rc_claim : bool;       (* cl->clientThreadJoinedByShutdown *)
+  rc_freed : bool;
+  rc_seen : bool;        (* the client thread's copy of the claim flag *)
+  rc_detached : bool; rc_exited : bool;
+  rc_joined : nat;       (* successful joins of this thread *)
+  rc_bad : bool;         (* pthread_join of a detached thread, or the application touched the freed record *)
+  rc_pcA : nat; rc_pcT : nat
+}.
+Scheme Equality for rc_st.
+Definition RC_DONE : nat := 5.
+Definition rc_step (fixed early : bool) (t : nat) (s : rc_st) : option rc_st :=
+  match t with
+  | 0 => match rc_pcA s with
+         | 0 => if rc_listed s
+                then Some (mkRc true (S (rc_ref s)) (rc_claim s) (rc_freed s) (rc_seen s) (rc_detached s) (rc_exited s) (rc_joined s) (rc_bad s) 1 (rc_pcT s))
+                else Some (mkRc false (rc_ref s) (rc_claim s) (rc_freed s) (rc_seen s) (rc_detached s) (rc_exited s) (rc_joined s) (rc_bad s) RC_DONE (rc_pcT s))
+         | 1 => Some (mkRc (rc_listed s) (rc_ref s) (fixed || rc_claim s) (rc_freed s) (rc_seen s) (rc_detached s) (rc_exited s) (rc_joined s)
+                           (rc_bad s || rc_freed s) 2 (rc_pcT s))                                   (* read client_thread [; claim] *)
+         | 2 => Some (mkRc (rc_listed s) (rc_ref s) (rc_claim s) (rc_freed s) (rc_seen s) (rc_detached s) (rc_exited s) (rc_joined s)
+                           (rc_bad s || rc_freed s) 3 (rc_pcT s))                                   (* rfbCloseClient *)
+         | 3 => Some (mkRc (rc_listed s) (pred (rc_ref s)) (rc_claim s) (rc_freed s) (rc_seen s) (rc_detached s) (rc_exited s) (rc_joined s) (rc_bad s) 4 (rc_pcT s))
+         | 4 => if rc_exited s                                                                     (* pthread_join returns when the thread has exited *)
+                then Some (mkRc (rc_listed s) (rc_ref s) (rc_claim s) (rc_freed s) (rc_seen s) (rc_detached s) (rc_exited s)
+                                (if rc_detached s then rc_joined s else S (rc_joined s)) (rc_bad s || rc_detached s) RC_DONE (rc_pcT s))
+                else None
+         | _ => None
+         end
+  | 1 => match rc_pcT s with
+         | 0 => Some (mkRc (rc_listed s) (rc_ref s) (rc_claim s) (rc_freed s) (if early then rc_claim s else rc_seen s) (rc_detached s) (rc_exited s) (rc_joined s) (rc_bad s) (rc_pcA s) 1)
+         | 1 => if rc_ref s =? 0
+                then Some (mkRc false (rc_ref s) (rc_claim s) (rc_freed s) (if early then rc_seen s else rc_claim s) (rc_detached s) (rc_exited s) (rc_joined s) (rc_bad s) (rc_pcA s) 2)
+                else None
+         | 2 => Some (mkRc (rc_listed s) (rc_ref s) (rc_claim s) true (rc_seen s) (rc_detached s) (rc_exited s) (rc_joined s) (rc_bad s) (rc_pcA s) 3)
+         | 3 => Some (mkRc (rc_listed s) (rc_ref s) (rc_claim s) (rc_freed s) (rc_seen s) (fixed && negb (rc_seen s)) (rc_exited s) (rc_joined s) (rc_bad s) (rc_pcA s) 4)
+         | 4 => Some (mkRc (rc_listed s) (rc_ref s) (rc_claim s) (rc_freed s) (rc_seen s) (rc_detached s) true (rc_joined s) (rc_bad s) (rc_pcA s) RC_DONE)
+         | _ => None
+         end
+  | _ => None
+  end.
+Definition rc_init : rc_st := mkRc true 0 false false false false false 0 false 0 0.
+Definition rc_final (s : rc_st) : bool := (rc_pcA s =? RC_DONE) && (rc_pcT s =? RC_DONE).
+Definition rc_reclaimed (s : rc_st) : nat := rc_joined s + (if rc_detached s then 1 else 0).
+(* never joined after detach, never a freed record touched, reclaimed at most once, and exactly once when everybody is through *)
+Definition rc_ok (s : rc_st) : bool :=
+  negb (rc_bad s) && (rc_reclaimed s <=? 1) && (negb (rc_final s) || (rc_reclaimed s =? 1)).
 
 (* ================================================================== 4b. a request wakes the output thread (rfbserver.c, main.c)
    thread 0 = application: ONE framebuffer operation (kind 0: rfbMarkRectAsModified -> modifiedRegion, TSIGNAL;
